@@ -72,7 +72,10 @@ int main(int argc, char **argv) {
   int rc = 0;
   const std::string mode = spec.get<std::string>("mode", "Serial");
   try {
-    occa::device dev({{"mode", mode}});
+    json dprops = spec["device"];
+    if (!dprops.isInitialized()) dprops = json(json::object_);
+    dprops["mode"] = mode;
+    occa::device dev(dprops);
     json jobs = spec["jobs"];
     for (int j = 0; j < jobs.size(); ++j) {
       json job = jobs[j];
